@@ -258,6 +258,27 @@ def r2(repo, chk):
                     want = {"on_packet_acked": "QuicPacketRecovery.on_ack_received", "on_packets_lost": "QuicPacketRecovery._on_packets_lost", "on_packets_expired": "QuicPacketRecovery.discard_space", "on_packet_sent": "QuicPacketRecovery.on_packet_sent"}[cbn]
                     chk.ob("R2", f"{fn.qual}: `{call_name(c)}` is called from the matching ledger operation", fn.qual == want, "a controller callback is issued without the matching change of sent_packets", fn.loc(c))
 
+    # wholesale replacement of the tracked spaces is a removal too: everything still tracked must be expired first
+    n_repl = 0
+    for fn in _fns(repo):
+        for st, t, v in fn.assigns(suffix="spaces"):
+            tt = norm(t)
+            if tt not in ("self._loss.spaces", "self.spaces") or (fn.qual == "QuicPacketRecovery.__init__"):
+                continue
+            if tt == "self.spaces" and not fn.qual.startswith("QuicPacketRecovery."):
+                continue
+            n_repl += 1
+            recv = "self._loss" if tt.startswith("self._loss") else "self"
+            ok = False
+            for loop in fn.stmts(lambda x: isinstance(x, ast.For)):
+                if norm(loop.iter) == f"{recv}.spaces" and isinstance(loop.target, ast.Name) and not fn.lexical_guards(loop, expand=False) == None:
+                    body = [norm(b) for b in loop.body]
+                    if body == [f"{recv}.discard_space({loop.target.id})"] and fn.before(loop, st) and fn.lexical_guards(loop, expand=False) == fn.lexical_guards(st, expand=False):
+                        ok = True
+            chk.ob("R2", f"{fn.qual}: `{norm(st)[:60]}` replaces the tracked spaces only after discarding each of them", ok, "packets still in flight (e.g. the Initial sent before a Retry) vanish from sent_packets without on_packets_expired: their bytes stay in bytes_in_flight for ever", fn.loc(st))
+    if n_repl < 1:
+        raise AnalysisError("no assignment of QuicPacketRecovery.spaces found outside its constructor (anchor moved?)")
+
 
 # ---- R3 / R4 -----------------------------------------------------------------------------------------
 
